@@ -314,6 +314,24 @@ theorem nv_C08_config_wiring :
   subst this
   exact ⟨calSchedules_ok, by decide +kernel, hl, hsv, hm rfl⟩
 
+/-- The situation of seeded change C09k: a second configuration on the same calendar whose output,
+    mortality and spread-rate schedules all use `every_n_steps` (n = 1, 3, 5) like the quarantine
+    schedule (n = 2); it is accepted, and its quarantine schedule is that of `calCfg`. -/
+def calCfgShared : CalCfg :=
+  { calCfg with outFreq := "every_n_steps", outN := 1, mortFreq := "every_n_steps", mortN := 3,
+                ratesFreq := "every_n_steps", ratesN := 5 }
+def calSchedulesShared : Schedules := match createSchedules calCfgShared with | .ok s => s | .error _ => default
+theorem calSchedulesShared_ok : createSchedules calCfgShared = .ok calSchedulesShared := by rfl
+
+theorem nv_C08_config_own_n :
+    createSchedules calCfgShared = .ok calSchedulesShared ∧
+    calSchedulesShared.quarantine = calSchedules.quarantine ∧
+    calSchedulesShared.mortality ≠ calSchedulesShared.quarantine :=
+  ⟨calSchedulesShared_ok,
+   (C08_config_own_n calCfg calCfgShared calSchedules calSchedulesShared calSchedules_ok calSchedulesShared_ok
+      ⟨rfl, rfl, rfl, rfl⟩).1 rfl rfl rfl,
+   by decide +kernel⟩
+
 /-! ## C09 -/
 
 /-- Step 2 of `stepCfg`: lethal temperature runs with input index 1 (second firing), the spread
